@@ -8,6 +8,7 @@ import (
 	"context"
 	"fmt"
 	"sync"
+	"time"
 )
 
 type vfRaw struct {
@@ -30,8 +31,18 @@ func vfPeerReadClientHello(c *Conn) (*clientHelloMsg, error) {
 	return c.readClientHello(context.Background())
 }
 
-func vfPeerHelloExchange(c *Conn, hello *clientHelloMsg) (*serverHelloMsg, error) {
-	if _, err := c.writeHandshakeRecord(hello, nil); err != nil {
+func vfPeerHelloExchange(c *Conn, hello *clientHelloMsg, mut func([]byte) []byte) (*serverHelloMsg, error) {
+	var m handshakeMessage = hello
+	if mut != nil {
+		data, err := hello.marshal()
+		if err != nil {
+			return nil, err
+		}
+		raw := &vfRaw{typeClientHello, mut(append([]byte(nil), data[4:]...))}
+		hello.raw, _ = raw.marshal() // the peer's transcript must contain what it actually sent
+		m = raw
+	}
+	if _, err := c.writeHandshakeRecord(m, nil); err != nil {
 		return nil, err
 	}
 	msg, err := c.readHandshake(nil)
@@ -70,6 +81,7 @@ type vfVsPeer struct {
 	UPanic, PPanic string
 	Stalled        bool
 	UHung          bool // the endpoint under test was still blocked when the simulation stalled
+	Watchdog       bool // the run did not end within the (generous) wall-clock budget and was torn down
 	U              *Conn
 	UState         ConnectionState
 	Sim            *vfStream
@@ -115,8 +127,14 @@ func vfRunVsPeer(underTestIsClient bool, ucfg, pcfg *Config, peer func(pc *Conn)
 			sim.ends[pi].Close()
 		}
 	})
+	wd := time.AfterFunc(30*time.Second, func() {
+		r.Watchdog = true
+		sim.ends[0].Close()
+		sim.ends[1].Close()
+	})
 	sim.watch()
 	wg.Wait()
+	wd.Stop()
 	r.Stalled = sim.stalled
 	r.UHung = sim.stalled && sim.stallActive[ui]
 	r.UState = u.ConnectionState()
@@ -134,3 +152,30 @@ func vfPeerPending(pc *Conn) bool {
 }
 
 func vfPeerTuneConfig(cfg *Config) {}
+
+// vfConnBuffered: bytes the connection currently buffers on behalf of the peer.
+func vfConnBuffered(c *Conn) int { return c.hand.Len() + c.rawInput.Len() }
+
+const vfConnBufBound = (65536 + 4) + 2*(16384+2048+5) + 65536
+
+// vfPeerWriteOne writes exactly one record, also for an empty payload.
+func vfPeerWriteOne(c *Conn, typ recordType, data []byte) error {
+	c.out.Lock()
+	defer c.out.Unlock()
+	outBuf := make([]byte, recordHeaderLen, recordHeaderLen+len(data)+128)
+	vers := c.vers
+	if vers == 0 {
+		vers = VersionTLCP
+	}
+	outBuf[0], outBuf[1], outBuf[2] = byte(typ), byte(vers>>8), byte(vers)
+	outBuf[3], outBuf[4] = byte(len(data)>>8), byte(len(data))
+	outBuf, err := c.out.encrypt(outBuf, data, c.config.rand())
+	if err != nil {
+		return err
+	}
+	if _, err := c.write(outBuf); err != nil {
+		return err
+	}
+	_, err = c.flush()
+	return err
+}
